@@ -877,7 +877,8 @@ def nud__attribute_kind_test_or_axis(self: XPathToken) -> XPathToken:
         self.parser.advance('::')
         self.parser.expected_next(
             '(name)', '*', 'text', 'node', 'document-node', 'comment', 'processing-instruction',
-            'attribute', 'schema-attribute', 'element', 'schema-element', 'namespace-node'
+            'attribute', 'schema-attribute', 'element', 'schema-element', 'namespace-node',
+            'Q{'
         )
         self[:] = self.parser.expression(rbp=90),
     else:
